@@ -56,9 +56,9 @@ LEVEL_NOTE = ('Trusted: Coq kernel, gen_tables.py/t14.py, extraction + OCaml dri
               '(the sender is one unregistered user with default capabilities); channel traffic and per-channel settings (brackets, pipeSyntax, '
               'reply.*), one network, private queries only; prefixNick; debug.threadAllCommands / CommandProcess; reply.maximumLength truncation and '
               'non-string replies; registry children are matched case-insensitively (finding C14.F27).  Not proved, only checked differentially: '
-              'that a restart preserves the disabled answers after an arbitrary disable/enable history (proved: the start-up table lists exactly the '
-              'registry entries, and each entry Owner.disable writes reads back as the same canonical command/plugin for names without special characters), '
-              'the registry list and success flags of Owner.disable/enable, the values of the sticky reply attributes.')
+              'the success flags of Owner.disable/enable, the values of the sticky reply attributes.  (That a restart preserves the disabled answers after '
+              'any history of disable/enable, run-time settings of supybot.commands.disabled and restarts IS proved, for names without special characters '
+              "or '.': C14_restart_preserves.)")
 TECHNIQUE = 'Coq proof (refinement of a frame-stack machine to a recursive evaluator, strong induction on the number of sub-commands) + regenerated tables + extracted-model differential correspondence on a live bot'
 EXPLANATION = 'C14: evaluation machine and dispatch model of src/callbacks.py; theorems in coq/C14/Props.v'
 
@@ -611,8 +611,7 @@ def cls_importantplugins(inp):
 
 def unmodelled(inp):
     """inputs the Gallina model does not represent: only the direct oracle looks at them"""
-    return cls_multi_reply(inp) or cls_importantplugins(inp) or any(base(k) == 'slow' for c, k in _all_cmds(inp)) \
-        or any(st.get('op') == 'config' for st in inp.get('steps', []))
+    return cls_multi_reply(inp) or cls_importantplugins(inp) or any(base(k) == 'slow' for c, k in _all_cmds(inp))
 
 
 CLASSES = {'many_subcommands_stack': cls_stack, 'subcallback_named_like_plugin': cls_group_shadow,
@@ -674,7 +673,11 @@ def run_history(ctx, S, inp, kind, with_model=True):
             if iout == ['reply', success]:
                 G = {cn(n) for n in st['names'] if '.' not in n}
                 P = {(cn(n.split('.', 1)[0]), cn(n.split('.', 1)[1])) for n in st['names'] if '.' in n}
+            else:
+                fail = fail or 'step %d `%s` by the owner was refused: %r' % (i + 1, step_line(st), iout)
             prev = snapshot(S)
+            obs.append(['op', True, prev[0], prev[1]])
+            wsteps.append([4, list(st['names'])])
         elif st['op'] == 'restart':
             restart_disabled(S)
             prev = snapshot(S)
@@ -999,7 +1002,10 @@ def gen_history(rng):
         r = rng.random()
         c = rng.choice(pool) if rng.random() < 0.9 else rng.choice(['enable', 'identify', 'zz'] + HC)
         pn = rng.choice(names)
-        if r < 0.08:
+        if r < 0.04:
+            ns = sorted({rng.choice([c, rng.choice(names) + '.' + c, rng.choice(names).lower() + '.' + c.upper()]) for _ in range(rng.randint(0, 3))})
+            steps.append({'op': 'config', 'names': ns} if ns else {'op': 'restart'})
+        elif r < 0.1:
             steps.append({'op': 'restart'})
         elif r < 0.4:
             line = ([rng.choice([pn, pn.lower()])] if rng.random() < 0.6 else []) + [rng.choice([c, c, c.upper()])] + rng.sample(['1', 'x'], rng.randint(0, 1))
